@@ -100,6 +100,31 @@ int main(int argc, char **argv) {
             compare("LagrangeHalfCPolynomialAddMul/SubMul", icls, lgB, tcls, r->coefsT, acc, tolP * T, ex);
             snprintf(cell, sizeof cell, "product:%s:lgB=%d:%s", icls_name[icls], lgB, tcls_name[tcls]); out.cell(cell);
         }
+        // the operands of the transforms and of the Lagrange-domain operations are inputs: reading a Lagrange polynomial out
+        // twice gives the same polynomial, and a polynomial that was multiplied or added stays what it was
+        // (several objects, so that both 16- and 32-byte aligned coefficient arrays occur)
+        {
+            LagrangeHalfCPolynomial *arr = new_LagrangeHalfCPolynomial_array(6, N);
+            TorusPolynomial *q1 = new_TorusPolynomial(N), *q2 = new_TorusPolynomial(N);
+            for (int o = 0; o < 4; o++) {
+                fill_int(a->coefs, icls, B); fill_torus(b->coefsT, tcls);
+                uint64_t ha = fnv1a(a->coefs, 4 * N), hb = fnv1a(b->coefsT, 4 * N);
+                VH_OP("fftprod:%s:operands-untouched:%s:lgB=%d:%s", tags.c_str(), icls_name[icls], lgB, tcls_name[tcls]);
+                IntPolynomial_ifft(arr + o, a); TorusPolynomial_ifft(arr + 4, b);
+                if (fnv1a(a->coefs, 4 * N) != ha || fnv1a(b->coefsT, 4 * N) != hb) out.viol("fft-error:ifft-modified-its-source", J().s("int_class", icls_name[icls]).i("log2B", lgB));
+                uint64_t h1 = fnv1a(arr[o].data, 8 * N), h4 = fnv1a(arr[4].data, 8 * N);
+                LagrangeHalfCPolynomialMul(arr + 5, arr + o, arr + 4);
+                TorusPolynomial_fft(q1, arr + 5); TorusPolynomial_fft(q2, arr + 5);        // two read-outs of the same object
+                out.evaluations++;
+                if (memcmp(q1->coefsT, q2->coefsT, 4 * N)) out.viol("fft-error:second-read-out-differs", J().s("int_class", icls_name[icls]).i("log2B", lgB).s("torus_class", tcls_name[tcls]).i("object", o));
+                TorusPolynomial_fft(q1, arr + 4);                                             // read-out of a multiplicand ...
+                LagrangeHalfCPolynomialMul(arr + 5, arr + o, arr + 4); TorusPolynomial_fft(q2, arr + 5);   // ... which is then used again
+                compare("product-after-read-out-of-an-operand", icls, lgB, tcls, q2->coefsT, (ref_negacyclic(exact, a->coefs, b->coefsT, N), exact), tolP);
+                if (fnv1a(arr[o].data, 8 * N) != h1 || fnv1a(arr[4].data, 8 * N) != h4)
+                    out.viol("fft-error:lagrange-operand-modified", J().s("int_class", icls_name[icls]).i("log2B", lgB).s("torus_class", tcls_name[tcls]).i("object", o));
+            }
+            delete_TorusPolynomial(q1); delete_TorusPolynomial(q2); delete_LagrangeHalfCPolynomial_array(6, arr);
+        }
         // transform-only identities (independent of the integer operand): done once per torus class in the icls==0 process of each B
         if (icls == 0) {
             for (int rep = 0; rep < reps; rep++) {
